@@ -478,6 +478,30 @@ impl<B: Backend> Allocated<B> {
     }
 }
 
+/// Verification hooks.
+#[cfg(hipstr_verif)]
+impl<B: Backend> Allocated<B> {
+    /// Returns `[owner address, vec ptr, vec len, vec capacity, view ptr,
+    /// view len, share count]`.
+    pub fn verif_repr(&self) -> [usize; 7] {
+        let owner = self.owner();
+        [
+            owner.verif_addr(),
+            owner.as_ptr() as usize,
+            owner.len(),
+            owner.capacity(),
+            self.ptr as usize,
+            self.len,
+            owner.verif_count(),
+        ]
+    }
+
+    /// Forces the stored share counter (shares minus one).
+    pub fn verif_force_count(&self, stored: usize) {
+        self.owner().verif_force_count(stored);
+    }
+}
+
 #[cfg(test)]
 mod tests {
     use alloc::vec;
